@@ -185,6 +185,15 @@ class TArr:
             newcols[ix] = (lambda f: (lambda k: f(start.e + k * step)))(cols[ix])
         return TArr(newlen, newcols, s.dtype)
 
+    def __setitem__(s, index, value):
+        """z[:, mask] = other  (assignment over the whole time axis on selected sample positions)"""
+        if not (isinstance(index, tuple) and len(index) >= 2 and isinstance(index[0], builtins.slice)
+                and index[0] == builtins.slice(None) and isinstance(value, TArr)):
+            raise Unsupported(f"T-array setitem {index!r}")
+        new = s.cols.copy()
+        new[index[1:] if len(index) > 2 else index[1]] = value.cols
+        s.cols = new
+
     def __array_function__(self, func, types, args, kwargs):
         if func is np.stack:
             return _tarr_stack(list(args[0]), **kwargs)
